@@ -66,11 +66,11 @@ type Term struct {
 }
 
 type termKey struct {
-	op         Op
-	w          uint8
-	a, b, c    int
-	val        uint64
-	name       string
+	op      Op
+	w       uint8
+	a, b, c int
+	val     uint64
+	name    string
 }
 
 // TermStore hash-conses terms for one path.
@@ -378,10 +378,10 @@ func (s *TermStore) Cmp(op Op, a, b *Term) *Term {
 		}
 	}
 	// comparisons against ite trees with constant leaves distribute
-	if b.op == OpConst && a.op == OpIte && iteConstLeaves(a, 64) {
+	if b.op == OpConst && a.op == OpIte && iteConstLeaves(a, 512) {
 		return s.Ite(a.a, s.Cmp(op, a.b, b), s.Cmp(op, a.c, b))
 	}
-	if a.op == OpConst && b.op == OpIte && iteConstLeaves(b, 64) {
+	if a.op == OpConst && b.op == OpIte && iteConstLeaves(b, 512) {
 		return s.Ite(b.a, s.Cmp(op, a, b.b), s.Cmp(op, a, b.c))
 	}
 	if op == OpEq {
@@ -568,7 +568,7 @@ func (s *TermStore) ZExt(a *Term, w uint8) *Term {
 	if a.op == OpZExt {
 		return s.ZExt(a.a, w)
 	}
-	if a.op == OpIte && iteConstLeaves(a, 64) {
+	if a.op == OpIte && iteConstLeaves(a, 512) {
 		return s.Ite(a.a, s.ZExt(a.b, w), s.ZExt(a.c, w))
 	}
 	return s.mk(OpZExt, w, a, nil, nil, 0, "")
@@ -587,7 +587,7 @@ func (s *TermStore) SExt(a *Term, w uint8) *Term {
 	if a.op == OpZExt { // zero-extended value is non-negative
 		return s.ZExt(a.a, w)
 	}
-	if a.op == OpIte && iteConstLeaves(a, 64) {
+	if a.op == OpIte && iteConstLeaves(a, 512) {
 		return s.Ite(a.a, s.SExt(a.b, w), s.SExt(a.c, w))
 	}
 	return s.mk(OpSExt, w, a, nil, nil, 0, "")
@@ -613,7 +613,7 @@ func (s *TermStore) Extract(a *Term, lo uint8, w uint8) *Term {
 		}
 		return s.SExt(a.a, w)
 	}
-	if a.op == OpIte && iteConstLeaves(a, 64) {
+	if a.op == OpIte && iteConstLeaves(a, 512) {
 		return s.Ite(a.a, s.Extract(a.b, lo, w), s.Extract(a.c, lo, w))
 	}
 	return s.mk(OpExtract, w, a, nil, nil, uint64(lo), "")
@@ -677,9 +677,9 @@ type smtPrinter struct {
 	defined map[int]bool
 	canon   bool
 	// incremental mode: names already defined in the solver / newly defined here
-	have   map[string]int
-	newDef []string
-	newVar []*Term
+	have     map[string]int
+	newDef   []string
+	newVar   []*Term
 	declared map[string]int
 }
 
